@@ -727,6 +727,7 @@ func (m *Machine) ensureInit(pkg *ssa.Package) {
 func (m *Machine) InitAll(pkg *ssa.Package) {
 	m.nondetSeq = map[string]int{}
 	m.overrides = map[string]Value{}
+	m.events = nil
 	m.sideMutex = map[*Value]*mutexState{}
 	m.sideWG = map[*Value]*wgState{}
 	m.sideCond = map[*Value]*condState{}
